@@ -7,6 +7,7 @@ version_constraint.py, FIXED CODE for "!="-only ranges); the spec is `denote`.
 -/
 import Univers.Vers.ContainsMain
 import Univers.Vers.DenoteCongr
+import Univers.Vers.SortThm
 
 namespace Univers.C04
 
@@ -43,6 +44,16 @@ theorem contains_depends_only_on_order [TransCmp cmp] (h : Lawful o cmp) (cs : L
     (hxy : ∀ k v, Con.mk k v ∈ cs → cmp x v = cmp y v) :
     containsVersion o x cs = containsVersion o y cs := by
   rw [contains_eq_denote h cs hwf x, contains_eq_denote h cs hwf y, denote_congr cs hxy]
+
+/-- Range level (`VersionRange.__contains__`): the constructor sorts the constraints; for a
+well-formed list given in ANY order the range holds the well-formed version-sorted
+permutation and membership is the interval-set meaning of that. -/
+theorem range_contains_eq_denote [TransCmp cmp] (h : Lawful o cmp) (cs : List (Con V))
+    (hwf : WF cmp cs) (x : V) :
+    ∃ s, mkRange o cs = .ok s ∧ s.Perm cs ∧ WFSorted cmp s ∧
+      containsVersion o x s = .ok (denote cmp s x) := by
+  obtain ⟨s, hs, hp, hw⟩ := sortCons_of_wf h cs hwf
+  exact ⟨s, hs, hp, hw, contains_eq_denote h s hw x⟩
 
 /-- '*' denotes everything. -/
 theorem star_contains_everything (x : V) : containsVersion o x [Con.star] = .ok true := rfl
